@@ -337,4 +337,17 @@ theorem tensor_row_major (K₂ m₂ : ℕ) (V₁ V₂ : ℕ → ℕ → ℚ) (i 
     basis2 K₂ m₂ V₁ V₂ (i * K₂ + j) a b = V₁ i a * V₂ j b := by
   unfold basis2; exact kron_index K₂ m₂ V₁ V₂ i j a b hj hb
 
+/-- Three input dimensions: function `(i·K₂ + j)·K₃ + k` at grid point `(a, b, c)` is
+`V₁[i,a]·V₂[j,b]·V₃[k,c]` — the row-major triple tensor product (`kron_index` iterated). -/
+theorem tensor_row_major_3d (K₂ m₂ K₃ m₃ : ℕ) (V₁ V₂ V₃ : ℕ → ℕ → ℚ) (i j k a b c : ℕ)
+    (hj : j < K₂) (hb : b < m₂) (hk : k < K₃) (hc : c < m₃) :
+    basis3 K₂ m₂ K₃ m₃ V₁ V₂ V₃ ((i * K₂ + j) * K₃ + k) a b c = V₁ i a * V₂ j b * V₃ k c := by
+  unfold basis3
+  rw [kron_index K₃ m₃ _ V₃ (i * K₂ + j) k (a * m₂ + b) c hk hc, kron_index K₂ m₂ V₁ V₂ i j a b hj hb]
+
+example : basis3 2 2 3 2 (fun i a => (i + a + 1 : ℚ)) (fun j b => (2 * j + b : ℚ)) (fun k c => (k * c + 1 : ℚ))
+    ((1 * 2 + 1) * 3 + 2) 1 0 1 = ((1 + 1 + 1 : ℕ) : ℚ) * ((2 * 1 + 0 : ℕ) : ℚ) * ((2 * 1 + 1 : ℕ) : ℚ) := by
+  rw [tensor_row_major_3d 2 2 3 2 _ _ _ 1 1 2 1 0 1 (by norm_num) (by norm_num) (by norm_num) (by norm_num)]
+  norm_num
+
 end C18
